@@ -510,7 +510,17 @@ def replay_case(mod, sub_name, case, known=None):
     ctx = Ctx(mod.PROPERTY, sub, "quick", 0, known)
     try:
         if sub.machine is not None:
-            mod.replay_history(sub_name, case, ctx)
+            try:
+                mod.replay_history(sub_name, case, ctx)
+            except (Violation, HarnessError):
+                raise
+            except Exception as e:  # noqa  - classify like Ctx.run_case
+                if not _passes_through_repo(e):
+                    raise
+                ctx._cur_case = case
+                if ctx._cur_labels is None:
+                    ctx._cur_labels = set()
+                ctx.fail("sut_exception:%s" % type(e).__name__, message=str(e)[:300], where=_repo_frame(e))
         else:
             ctx.run_case(case)
     except Violation as v:
